@@ -481,9 +481,12 @@ def check_mod_particle(rnd, b):
     L = rnd.randint(2, 7)
     start = rnd.choice([1, 5, 0, 40])
     modified = sorted(rnd.sample(range(L), rnd.choice([1, 1, 2]) if L > 2 else 1))
-    x_last = rnd.random() < 0.4
+    # the atom X of a modified residue is listed with its residue, at the end of the molecule, or after the atoms of some later residue
+    where = {ri: rnd.choice([ri, ri, L - 1, rnd.randint(ri, L - 1)]) for ri in modified}
+    x_last = any(where[ri] != ri for ri in modified)
     mol = Molecule(force_field=ffa)
-    k, prev, later = 0, None, []
+    k, prev = 0, None
+    anchor = {}
     for ri in range(L):
         resid = start + ri
         a = k
@@ -499,16 +502,12 @@ def check_mod_particle(rnd, b):
         if ri in modified:
             mol.nodes[a]['modifications'] = [moda]
             mol.nodes[b_]['modifications'] = [moda]
-            if x_last:
-                later.append((b_, resid))
-            else:
-                mol.add_node(k, atomname='X', resname='RES', resid=resid, chain='A', element='X', PTM_atom=True, modifications=[moda])
-                mol.add_edge(b_, k)
+            anchor[ri] = b_
+        for rj in modified:
+            if where[rj] == ri:
+                mol.add_node(k, atomname='X', resname='RES', resid=start + rj, chain='A', element='X', PTM_atom=True, modifications=[moda])
+                mol.add_edge(anchor[rj], k)
                 k += 1
-    for b_, resid in later:
-        mol.add_node(k, atomname='X', resname='RES', resid=resid, chain='A', element='X', PTM_atom=True, modifications=[moda])
-        mol.add_edge(b_, k)
-        k += 1
     out = do_mapping(mol, maps, ffb, attribute_keep=('chain',), attribute_must=('resname',), attribute_stash=('resid',))
     b.hits += 1
     got = sorted((d.get('resid'), d.get('atomname'), d.get('_old_resid')) for n, d in out.nodes(data=True))
